@@ -223,9 +223,20 @@ def write_summary_file_vue(stats, filepath, year=2025, currency_format="${amount
         # Fallback: return cleaned up version of expression
         return filter_expr.replace('==', '=').replace('&&', ' and ').replace('||', ' or ')
 
-    # Helper function to create merchant IDs
+    # Helper function to create merchant IDs. Names that differ only in quotes,
+    # spaces or underscores ("Joe's" / "Joes") must not share an id, otherwise one
+    # merchant overwrites the other in the report data.
+    merchant_ids = {}
+
     def make_merchant_id(name):
-        return name.replace("'", "").replace('"', '').replace(' ', '_')
+        if name not in merchant_ids:
+            base = name.replace("'", "").replace('"', '').replace(' ', '_')
+            candidate, n = base, 1
+            while candidate in merchant_ids.values():
+                n += 1
+                candidate = f"{base}_{n}"
+            merchant_ids[name] = candidate
+        return merchant_ids[name]
 
     # Build section merchants data
     def build_section_merchants(merchant_dict):
